@@ -195,6 +195,27 @@ func (p *Pool) IsAllocatedTo(mac net.HardwareAddr, ip net.IP) bool {
 	return ok && held.Equal(ip)
 }
 
+// Rebind moves the address held by oldMAC to newMAC (the subscriber behind a
+// relay circuit replaced its CPE). An address newMAC held before goes back to the
+// free list unless it is quarantined.
+func (p *Pool) Rebind(oldMAC, newMAC net.HardwareAddr) {
+	p.mu.Lock()
+	defer p.mu.Unlock()
+
+	oldKey, newKey := oldMAC.String(), newMAC.String()
+	ip, ok := p.allocated[oldKey]
+	if !ok || oldKey == newKey {
+		return
+	}
+	if prev, had := p.allocated[newKey]; had && !prev.Equal(ip) {
+		if _, declined := p.unavailable[prev.String()]; !declined {
+			p.available = append(p.available, prev)
+		}
+	}
+	delete(p.allocated, oldKey)
+	p.allocated[newKey] = ip
+}
+
 // Contains checks if an IP is within this pool
 func (p *Pool) Contains(ip net.IP) bool {
 	return p.Network.Contains(ip)
